@@ -124,6 +124,11 @@ impl StateMachine<'_> {
                     .output_buffer
                     .push_str(&tabs::expand(&self.raw_line, &self.config.tab_cfg));
                 self.painter.output_buffer.push('\n');
+                // A truly empty line is an empty context line (GNU diff --suppress-blank-empty,
+                // or a diff whose trailing blanks were stripped), i.e. a line of the old file.
+                if self.line.is_empty() {
+                    self.minus_line_counter.count_line();
+                }
                 // The lines which follow belong to the same hunk: keep its diff type (in a
                 // combined diff, the number of marker columns).
                 let diff_type = match &self.state {
